@@ -383,7 +383,8 @@ class DataFormat(object):
             sheet = DataFormat._validated_int_at_least_0(KEY_SHEET, value, location)
             if sheet < 1:
                 raise errors.InterfaceError(
-                    "data format property %s is %d but must be at least 1" % (_compat.text_repr(KEY_SHEET), sheet), location
+                    "data format property %s is %d but must be at least 1" % (_compat.text_repr(KEY_SHEET), sheet),
+                    location,
                 )
             self.sheet = sheet
         elif name == KEY_SKIP_INITIAL_SPACE:
@@ -541,7 +542,8 @@ class DataFormat(object):
             check_distinct(KEY_ITEM_DELIMITER, KEY_LINE_DELIMITER)
             if self.item_delimiter in ("\n", "\r"):
                 raise errors.InterfaceError(
-                    "'%s' is %s but must not be a line break" % (KEY_ITEM_DELIMITER, _compat.text_repr(self.item_delimiter))
+                    "'%s' is %s but must not be a line break"
+                    % (KEY_ITEM_DELIMITER, _compat.text_repr(self.item_delimiter))
                 )
             check_distinct(KEY_ITEM_DELIMITER, KEY_QUOTE_CHARACTER)
             check_distinct(KEY_LINE_DELIMITER, KEY_QUOTE_CHARACTER)
